@@ -161,15 +161,11 @@ def run(rep: Report, ctx: Any) -> str:
     # reserved parameter names of operations, read from the AST
     ep = ix.cls("Endpoint").methods.get("_check_parameters_for_conflicts")
     rep.require(ep, "Endpoint._check_parameters_for_conflicts")
-    # the reserved table (any spelling): a local bound to a literal list of strings that a python_name is tested against
-    from .registries import reserved_lists
+    # the reserved table (any spelling, wherever the parameter pass lives - the method or a helper it delegates to): the literal
+    # strings every parameter's python_name is tested against
+    from .registries import endpoint_reserved_names
 
-    tables = reserved_lists(ep)
-    tested = {norm(c.comparators[0]) for c in ast.walk(ep.node) if isinstance(c, ast.Compare) and isinstance(c.ops[0], ast.In)
-              and norm(c.left).endswith(".python_name")}
-    endpoint_reserved: set[str] = set()
-    for nm in sorted(set(tables) & tested):
-        endpoint_reserved |= set(tables[nm])
+    endpoint_reserved: set[str] = endpoint_reserved_names(ix)
     rep.require(endpoint_reserved, "reserved_names list in _check_parameters_for_conflicts")
     rep.indexed["reserved_words"] = len(reserved)
     rep.indexed["endpoint_reserved"] = sorted(endpoint_reserved)
